@@ -120,6 +120,12 @@ Proof.
     destruct (ck_finish (en_ck en) && (negb ok || c10_ferror w1 name)); [destruct (ck_popper (en_ck en))|]; exact H1.
   - intros _ w1 H1. rewrite IH. exact H1.
 Qed.
+Lemma c10_kp_with_pops en name r m :
+  m <> name -> c10_at (c10_world_of (c10_with_pops en name r)) m = c10_at (c10_world_of r) m.
+Proof.
+  intros Hm. destruct r as [[] w|e w|w]; simpl; [apply c10_kp_pop_finish_n; auto| |reflexivity].
+  pose proof (c10_kp_pop_finish_n en name m Hm (en_md5_pops en) w) as H. destruct (c10_pop_finish_n _ en name w); exact H.
+Qed.
 Lemma c10_kp_fclose en name w m : m <> name -> c10_at (c10_world_of (c10_fclose en name w)) m = c10_at w m.
 Proof. intros Hm. apply c10_kp_stream_op; auto. Qed.
 Lemma c10_kp_dtor_close {A} en name (r : c10_res A) m :
@@ -133,8 +139,7 @@ Lemma c10_kp_writer_file en name chunks w m :
 Proof.
   intros Hm. unfold c10_writer_file. apply c10_kp_bind; [apply c10_kp_fopen; auto|]. intros ok w1 H1.
   destruct ok; simpl; [|exact H1]. rewrite c10_kp_dtor_close by auto.
-  apply c10_kp_bind; [rewrite c10_kp_pl_write_chunks by auto; exact H1|]. intros _ w2a H2a.
-  apply c10_kp_bind; [rewrite c10_kp_pop_finish_n by auto; exact H2a|]. intros _ w2 H2.
+  apply c10_kp_bind; [rewrite c10_kp_with_pops by auto; rewrite c10_kp_pl_write_chunks by auto; exact H1|]. intros _ w2 H2.
   apply c10_kp_bind; [rewrite c10_kp_pl_finish by auto; exact H2|]. intros _ w3 H3.
   apply c10_kp_bind; [rewrite c10_kp_fclose by auto; exact H3|]. intros okc w4 H4.
   destruct (ck_wclose (en_ck en) && negb okc); exact H4.
